@@ -86,3 +86,35 @@ Theorem C09_search_pattern_pinned : PX.Gen.Choices.SEARCH_FUNCTION_PATTERN = [11
 Proof. exact search_pattern_pinned. Qed.
 Print Assumptions C09_search_pattern_pinned.
 
+
+(* ---- what happens to a select that uses search() (Model/Redirect.v, run against Survey._redirect_is_search_itext) ---- *)
+Require Import PX.Model.Redirect PX.Proofs.Redirect.
+(* in-line items are given exactly to search() selects that are not selects from a file and whose list is at hand: the select's own
+   copy, or -- for selects that keep none, e.g. randomized ones -- the survey's list of that name *)
+Theorem C09_search_inline_iff : forall ap its copy lists b,
+  redirect ap its copy lists = RInline b <->
+  exists a, ap = Some a /\ is_search a = true /\ from_file its = false /\ (if copy then b = false else b = true /\ mem its lists = true).
+Proof. exact redirect_inline_iff. Qed.
+Print Assumptions C09_search_inline_iff.
+(* a search() select is never silently left as it was: it gets its items or the conversion is refused *)
+Theorem C09_search_select_decided : forall a its copy lists, is_search a = true -> redirect (Some a) its copy lists <> RNotSearch.
+Proof. exact search_select_decided. Qed.
+Print Assumptions C09_search_select_decided.
+Theorem C09_listed_search_select_gets_items : forall a its copy lists, is_search a = true -> from_file its = false -> mem its lists = true ->
+  redirect (Some a) its copy lists = RInline (negb copy).
+Proof. exact listed_select_gets_items. Qed.
+Print Assumptions C09_listed_search_select_gets_items.
+Theorem C09_unlisted_search_select_rejected : forall a its lists, is_search a = true -> from_file its = false -> mem its lists = false ->
+  redirect (Some a) its false lists = RErrNoList.
+Proof. exact unlisted_select_rejected. Qed.
+Print Assumptions C09_unlisted_search_select_rejected.
+Theorem C09_other_selects_untouched : forall ap its copy lists, (forall a, ap = Some a -> is_search a = false) -> redirect ap its copy lists = RNotSearch.
+Proof. exact not_search_untouched. Qed.
+Print Assumptions C09_other_selects_untouched.
+Theorem C09_search_checks_pinned :
+  REDIRECT_CHECK_ORDER = [ [101;120;116;32;97;110;100;32;101;120;116;32;105;110;32;69;88;84;69;82;78;65;76;95;73;78;83;84;65;78;67;69;95;69;88;84;69;78;83;73;79;78;83]%N;
+                           [105;116;101;109;115;101;116;32;105;115;32;78;111;110;101;32;97;110;100;32;115;101;108;102;46;99;104;111;105;99;101;115]%N;
+                           [105;116;101;109;115;101;116;32;105;115;32;78;111;110;101]%N;
+                           [110;111;116;32;105;116;101;109;115;101;116;46;117;115;101;100;95;98;121;95;115;101;97;114;99;104]%N ].
+Proof. exact redirect_checks_pinned. Qed.
+Print Assumptions C09_search_checks_pinned.
